@@ -5,7 +5,8 @@ import itertools
 
 from .. import engine, lib, monitors, refexpr
 
-OPERANDS = ["1", "2", "7", "0x1F", "010", "0b101", "3u", "4UL", "a", "b", "u", "K", "sizeof(uint32)"]
+OPERANDS = ["1", "2", "7", "0x1F", "010", "0b101", "3u", "4UL", "a", "b", "u", "K", "sizeof(uint32)",
+            "sizeof(unsigned short)"]
 BINOPS = ["*", "/", "%", "+", "-", "<<", ">>", "&", "^", "|"]
 UNOPS = ["-", "~"]
 BINDINGS = [
@@ -13,7 +14,7 @@ BINDINGS = [
     ({"a": 0, "b": 2, "u": 9}, {"K": 5}),
     ({"a": 5, "b": 1, "u": 2, "K": 1}, {"K": 6}),   # the context shadows the constant
 ]
-SIZEOF = {"uint32": 4, "uint8": 1, "uint16": 2, "uint64": 8, "int24": 3, "char": 1, "wchar": 2, "int128": 16}
+SIZEOF = {"unsigned short": 2, "unsigned int": 4, "unsigned long long": 8, "signed char": 1, "long long": 8, "uint32": 4, "uint8": 1, "uint16": 2, "uint64": 8, "int24": 3, "char": 1, "wchar": 2, "int128": 16}
 
 
 def sizeof(name):
@@ -178,7 +179,9 @@ def exhaustive(ctx, maxtok):
 
 def random_expr(rng, depth):
     if depth == 0 or rng.random() < 0.25:
-        return rng.choice(OPERANDS + ["0", "0x0", "255", "0b1", "017", "100", "0XfF", "0B11", "9L", "8ull", "6lu"])
+        return rng.choice(OPERANDS + ["0", "0x0", "255", "0b1", "017", "100", "0XfF", "0B11", "9L", "8ull", "6lu",
+                                      "sizeof( unsigned  long long )", "sizeof (signed char)", "sizeof(int24)",
+                                      "sizeof(long long)"])
     x = rng.random()
     if x < 0.2:
         return f"{rng.choice(UNOPS)}{rng.choice(['', ' '])}{random_expr(rng, depth - 1)}"
